@@ -35,7 +35,7 @@ ASSUMPTIONS = [
 REQUIRED_MONITORS = ["rows", "emo_compared", "dipole_compared", "hf_compared", "translation_pairs", "rows_uhf",
                      "rows_ion", "rows_excited", "batchcell_activemix", "batchcell_chargemix", "rows_ground_in_mixed_active_batch",
                      "gap_vs_alone_compared", "rows_dispersion_nonzero", "xl_calls", "xl_calls_krylov",
-                     "xl_rows_dm_differs_from_P0"]
+                     "xl_rows_dm_differs_from_P0", "orbital_pairs_checked", "repeat_calls_with_cycle_of_length_ge3"]
 CASE_TIMEOUT = 600.0
 BUDGET_S = {"quick": float(os.environ.get("VERIF_BUDGET_QUICK", 200)), "thorough": float(os.environ.get("VERIF_BUDGET_THOROUGH", 1500))}
 
@@ -235,6 +235,18 @@ def gen_cases(tier, seed):
                 cases.append(c)
     cases += _element_cases(g, tier)
     named = _batch_cells(g, tier) + _disp_and_xl_cells(g, tier)
+    # repeated calls on molecules with 3-fold degenerate level sets and large kicks, so that the orbital tracker produces
+    # permutations with cycles of length >= 3 (where a permutation and its inverse differ)
+    deg = [("CH4", "AM1"), ("NH4+", "PM3"), ("SiH4", "MNDO"), ("C2H6", "AM1"), ("CH4", "PM6_SP")]
+    if not quick:
+        deg += [("CH4", "MNDO"), ("NH4+", "AM1"), ("SiH4", "PM3"), ("BH3", "MNDO"), ("C2H6", "PM3"), ("NH3", "AM1"),
+                ("AlH3", "AM1"), ("C6H6", "AM1")]
+    for name, method in deg:
+        for kick in ((0.25,) if quick else (0.15, 0.25, 0.35)):
+            c = c01._lib_case(g, tier, method=method, name=name, layout="single", conv=[2], sigma=0.02, sp2=False,
+                              orient=c01._orient_generic())
+            c.update({"sp2": None, "modes": ["autodiff"], "eps": 1e-10, "tier": tier, "repeat": {"n": 4, "kick": kick}})
+            named.append(c)
     for c in named:
         c["tier"] = tier
     for i, c in enumerate(cases):
@@ -279,6 +291,30 @@ def _merge(dst, src):
     for k, v in src.items():
         if not (v <= dst.get(k, -1.0)):
             dst[k] = v
+
+
+def _longest_cycle(e, w):
+    """longest cycle of the permutation that takes the ascending eigenvalues w to the reported order e (levels that
+    cannot be matched uniquely - degenerate to 1e-6 - are left in place)."""
+    e, w = np.asarray(e, float), np.asarray(w, float)
+    n = len(w)
+    pi = list(range(n))
+    for k in range(n):
+        d = np.abs(w - e[k])
+        j = int(np.argmin(d))
+        if d[j] <= 1e-7 and np.sum(d <= 1e-6) == 1:
+            pi[k] = j
+    if sorted(pi) != list(range(n)):
+        return 0
+    seen, best = set(), 1
+    for k in range(n):
+        L, j = 0, k
+        while j not in seen:
+            seen.add(j)
+            j = pi[j]
+            L += 1
+        best = max(best, L)
+    return best
 
 
 def classify(v, case, repeat_index):
@@ -330,6 +366,8 @@ def run_case(case):
         raise
     mon["calls"] += 1
 
+    cyc = [0]
+
     def judge(mol, es, sett, rep):
         b = obs14.bundle(mol, es, sett, Q, M, sp2_tol=case.get("sp2"))
         for k, n in b["monitors"].items():
@@ -340,6 +378,9 @@ def run_case(case):
             if rep > 0:
                 v["detail"]["repeat_index"] = rep
                 v["detail"]["kick"] = case["repeat"]["kick"]
+                if v["clause"] == "emo-not-ascending" and v["detail"].get("eig_F") is not None:
+                    L = _longest_cycle(v["detail"]["e_mo"], v["detail"]["eig_F"])
+                    cyc[0] = max(cyc[0], L)
             v["mech"] = classify(v, case, rep)
             viol.append(v)
         return b
@@ -403,7 +444,12 @@ def run_case(case):
                     break
                 raise
             mon["repeat_calls"] += 1
+            cyc[0] = 0
             judge(mol, es, sett, k + 1)
+            if cyc[0] >= 3:
+                mon["repeat_calls_with_cycle_of_length_ge3"] = mon.get("repeat_calls_with_cycle_of_length_ge3", 0) + 1
+            if cyc[0] >= 2:
+                mon["repeat_calls_with_reordered_emo"] = mon.get("repeat_calls_with_reordered_emo", 0) + 1
         cells.append("repeat/%s/kick%g" % (case["method"], rep["kick"]))
     # ---- translation twin ---------------------------------------------------------------------
     if case.get("translate") is not None and dip0 is not None:
